@@ -55,3 +55,8 @@ type (
 	Cond      = real.Cond
 	Locker    = real.Locker
 )
+
+func NewCond(l Locker) *Cond                                   { return real.NewCond(l) }
+func OnceFunc(f func()) func()                                 { return real.OnceFunc(f) }
+func OnceValue[T any](f func() T) func() T                     { return real.OnceValue(f) }
+func OnceValues[T1, T2 any](f func() (T1, T2)) func() (T1, T2) { return real.OnceValues(f) }
